@@ -9,7 +9,10 @@ package main
 // returned, and returns exactly what Do returned.
 //
 //   (upx <script|http> (<chunk len>...) <read k> <eof 0|1> (ans <st>)|drop|cancel pre|(w <k>)|answered|ateof)
-//   (xobs <close result> <do result|none> <do returned first 0|1> <leak> <hang>)
+//   (xobs <close result|none> <do result|none> <do returned first 0|1> <leak> <hang> <create error|none> <sent 0|1>)
+//
+// <create error>: Create itself returned an error and no writer (then nothing is written
+// or closed); <sent>: a request reached the HTTPClient.
 
 import (
 	"context"
@@ -71,11 +74,13 @@ func parseXScript(s hx.Sx) xscript {
 // at the moment it returns.
 type doRecorder struct {
 	inner    webdav.HTTPClient
+	entered  atomic.Bool
 	returned atomic.Bool
 	class    atomic.Value
 }
 
 func (d *doRecorder) Do(req *http.Request) (*http.Response, error) {
+	d.entered.Store(true)
 	resp, err := d.inner.Do(req)
 	switch {
 	case err != nil:
@@ -120,14 +125,20 @@ func doUploadX(x xscript, id string) string {
 	rec := &doRecorder{inner: inner}
 	c, err := webdav.NewClient(rec, endpoint)
 	if err != nil {
-		return hx.L("xobs", "none", "none", "0", "0", "1")
+		return hx.L("xobs", "none", "none", "0", "0", "1", "none", "0")
 	}
 	if x.cx == "pre" {
 		cancel()
 	}
 	w, err := c.Create(ctx, "/f")
-	if err != nil {
-		return hx.L("xobs", "none", "none", "0", "0", "1")
+	if err != nil || w == nil {
+		// Create refused: there is no writer, nothing to write or close.  What is left to
+		// observe: the error, whether anything reached the transport, what stays behind.
+		time.Sleep(2 * time.Millisecond)
+		leak := leaked(id, 2*time.Second)
+		close(e.release)
+		cleanup()
+		return hx.L("xobs", "none", "none", "0", hx.B(leak), "0", classify(err), hx.B(rec.entered.Load()))
 	}
 	off := 0
 	if x.cx == "w" && x.cxk == 0 {
@@ -159,7 +170,7 @@ func doUploadX(x xscript, id string) string {
 	leak := leaked(id, 2*time.Second)
 	close(e.release)
 	cleanup()
-	return hx.L("xobs", closeRes, doRes, hx.B(doFirst), hx.B(leak), "0")
+	return hx.L("xobs", closeRes, doRes, hx.B(doFirst), hx.B(leak), "0", "none", hx.B(rec.entered.Load()))
 }
 
 func runUploadX(x xscript, watchdog time.Duration) string {
@@ -173,7 +184,7 @@ func runUploadX(x xscript, watchdog time.Duration) string {
 		return x.Sx() + " " + o
 	case <-time.After(shrink(watchdog, hangsSeen.Load())):
 		hangsSeen.Add(1)
-		return x.Sx() + " " + hx.L("xobs", "none", "none", "0", "0", "1")
+		return x.Sx() + " " + hx.L("xobs", "none", "none", "0", "0", "1", "none", "0")
 	}
 }
 
